@@ -32,7 +32,8 @@ RULE = (
     "Every path-opening entry point is driven on real temp directories (the 'evidence'): VMDK descriptors by Path/str/"
     "file object with FLAT/VMFS/SPARSE/VMFSSPARSE/SESPARSE extents and parent lookups (same/sibling directory, Windows "
     "hint), VHDX by path with differencing parents, HDD(path).open() incl. absolute-path fall-backs and snapshot chains, "
-    "vmtar by name and file object, Hyper-V/OVF/VBox/PVS/VMX from real files, the envelope-decrypt CLI (success, wrong "
+    "vmtar by name and file object (incl. gzip archives that inflate to tens of MiB), Hyper-V files with outstanding replay-log "
+    "entries through read-only, r+b, in-memory and writable()-claiming handles, OVF/VBox/PVS/VMX from real files, the envelope-decrypt CLI (success, wrong "
     "key, missing files, --output naming an existing directory) - success and error paths (missing, truncated, garbage "
     "and self-referencing files, I/O errors injected on the k-th backend call). Monitors: CPython audit hook (any "
     "open-for-write, remove/rename/truncate/chmod/utime/link/mkdir/shutil event from a repository frame other than the "
@@ -227,9 +228,13 @@ def build_and_run(k: str, rng, ctx, root: Path, fault, res, phase: str = "both")
             raw, _, _ = wtar.build(rng, members)
             (root / "a.vtar").write_bytes(raw)
             (root / "a.vgz").write_bytes(gzip.compress(raw))
+            # a gzip-wrapped archive that inflates to tens of MiB (tiny on disk)
+            bigm = [{"name": "big/blob", "kind": "file", "data": bytes(rng.choice([20, 40]) << 20)}, {"name": "big/small", "kind": "file", "data": b"s" * 100}]
+            braw, _, _ = wtar.build(rng, bigm)
+            (root / "big.vgz").write_bytes(gzip.compress(braw, compresslevel=1))
         elif k == "hyperv":
             tree = {"configuration": {"a": whv.Val("int", 5), "s": whv.Val("string", "x" * 3000, file_object=True), "sub": {"b": whv.Val("bool", 1)}}}
-            raw, _ = whv.build(rng, tree, ntables=2, stale_tables=1)
+            raw, _ = whv.build(rng, tree, ntables=2, stale_tables=1, replay_entries=rng.choice([0, 2, 5]))
             (root / "vm.vmcx").write_bytes(raw)
         elif k == "xmlcfg":
             (root / "vm.ovf").write_text(wcfg.gen_ovf(rng)[0])
@@ -277,19 +282,35 @@ def build_and_run(k: str, rng, ctx, root: Path, fault, res, phase: str = "both")
             if k == "vmtar":
                 from dissect.hypervisor.util import vmtar
 
-                p = root / rng.choice(["a.vtar", "a.vgz"])
+                p = root / rng.choice(["a.vtar", "a.vgz", "big.vgz", "big.vgz"])
 
                 def f():
-                    t = vmtar.open(str(p)) if rng.random() < 0.5 else vmtar.open(fileobj=open(p, "rb"))
-                    return [t.extractfile(m).read() for m in t.getmembers() if m.isreg()]
+                    t = vmtar.open(str(p)) if (rng.random() < 0.5 or p.name == "big.vgz") else vmtar.open(fileobj=open(p, "rb"))
+                    return [len(t.extractfile(m).read(1 << 16)) for m in t.getmembers() if m.isreg()]
 
                 return call(f)
             if k == "hyperv":
                 from dissect.hypervisor.descriptor.hyperv import HyperVFile
 
-                fh = FlakyFile(root / "vm.vmcx", rng.randrange(1, 9)) if fault == "ioerror" else open(root / "vm.vmcx", "rb")
+                hmode = rng.choice(["rb", "r+b", "proxy-writable", "bytesio"])
+                if fault == "ioerror":
+                    fh = FlakyFile(root / "vm.vmcx", rng.randrange(1, 9))
+                elif hmode in ("rb", "r+b"):
+                    # a caller may well hand in a handle that happens to be writable: it must still not be written to
+                    fh = open(root / "vm.vmcx", hmode)
+                elif hmode == "proxy-writable":
+                    fh = as_handle((root / "vm.vmcx").read_bytes(), claims_writable=True)
+                else:
+                    fh = io.BytesIO((root / "vm.vmcx").read_bytes())
                 handles.append(fh)
-                return call(lambda: HyperVFile(fh).as_dict())
+                before_bytes = fh.getvalue() if hmode == "bytesio" and fault != "ioerror" else None
+                o_ = call(lambda: HyperVFile(fh).as_dict())
+                if before_bytes is not None and fh.getvalue() != before_bytes:
+                    res["viol"].append({"what": "a caller-supplied in-memory handle was modified", "mech": MECH, "detail": {"entry_point": k}})
+                if getattr(fh, "mutations", None):
+                    res["viol"].append({"what": "write/truncate called on a caller-supplied handle", "mech": MECH, "detail": {"entry_point": k, "calls": fh.mutations[:3]}})
+                res["sets"].setdefault("handle_modes", []).append(hmode)
+                return o_
             if k == "xmlcfg":
                 from dissect.hypervisor.descriptor.ovf import OVF
                 from dissect.hypervisor.descriptor.pvs import PVS
